@@ -117,6 +117,8 @@ func (u *Unit) fieldAddr(base Term, structT types.Type, idx int) Term {
 	u.Axiom(Eq(App("akind", SInt, t), IntLit(int64(kid))))
 	u.Axiom(Eq(App("aobj", SV, t), App("aobj", SV, base)))
 	u.Axiom(Neq(t, NilV))
+	// nesting depth: an address is never (inside) one of its own fields
+	u.Axiom(Eq(App("adepth", SInt, t), Add(App("adepth", SInt, base), IntLit(1))))
 	return t
 }
 
@@ -127,6 +129,7 @@ func (u *Unit) elemAddr(base, idx Term) Term {
 	u.Axiom(Eq(App("akind", SInt, t), IntLit(-1)))
 	u.Axiom(Eq(App("aobj", SV, t), App("aobj", SV, base)))
 	u.Axiom(Neq(t, NilV))
+	u.Axiom(Eq(App("adepth", SInt, t), Add(App("adepth", SInt, base), IntLit(1))))
 	return t
 }
 
